@@ -186,7 +186,15 @@ def run(prog: Program, rep, tier: str) -> None:
 
     slack_embedding(prog, rep)
     pipeline(prog, rep)
-    # repeated evaluation must see the user's values again: the wrappers must not write into what a callback returned
+    callback_results_kept(prog, rep)
+    # ... and the evaluator in front of them answers every request with the value at the requested point
+    from . import c19 as _c19
+    _c19.evaluator_memoryless(prog, rep)
+
+
+def callback_results_kept(prog: Program, rep) -> None:
+    """repeated evaluation must see the user's values again: the wrapper problems must not write into what a callback returned
+    (a stored matrix handed out by the user's problem would be rescaled cumulatively, evaluation after evaluation)."""
     from ..own import Ownership
     ow = Ownership(prog)
     nsk = 0
